@@ -179,7 +179,7 @@ var errTooSlow = errors.New("too slow (custom deadline cause)")
 func TestCheck(t *testing.T) {
 	run := report.New(prop, "exploration")
 	defer run.Finish(t)
-	run.Rule("scenarios of 2-5 workers (distinct Lockers of 1-3 providers and goroutines sharing a Locker) running programs of 1-3 attempts over {Lock, TryLock, LockWithCtx} with re-acquisition, inside a synctest bubble; every kvs.Storage call of the lock code is a gate; one enabled action per step: release a gate, start an attempt, cancel a LockWithCtx before or during the call, leave a critical section, Shutdown a provider. Random and PCT schedules plus exhaustive DFS of 27 two-worker configurations. Oracles: (a) stuck = unfinished workers and no progress action at quiescence; (b) return values (cancelled-before-call => context error; uncancelled attempts succeed; nothing acquires after Shutdown returned); (c) residue at the end: no lock record, empty waiter table, TryLock/Unlock works again (pending lease timers are counted, not judged: C05 tolerates one armed renewal per finished tenure) on every Locker of a live provider. free-running: 600 / 30 000 rounds of 3-10 real goroutines on 2-4 Lockers under the race detector: everybody finishes within 4 s (a missed release is only rescued by the 10 s lease), then the same residue probes. distinct = distinct (configuration, action trace) pairs executed + distinct free-running configurations")
+	run.Rule("scenarios of 2-5 workers (distinct Lockers of 1-3 providers and goroutines sharing a Locker) running programs of 1-3 attempts over {Lock, TryLock, LockWithCtx} with re-acquisition, inside a synctest bubble; every kvs.Storage call of the lock code is a gate; one enabled action per step: release a gate, start an attempt, cancel a LockWithCtx before or during the call, leave a critical section, Shutdown a provider. Random and PCT schedules plus exhaustive DFS of 27 two-worker configurations. Oracles: (a) stuck = unfinished workers and no progress action at quiescence; (b) return values (cancelled-before-call => context error; uncancelled attempts succeed; nothing acquires after Shutdown returned); (c) residue at the end: no lock record, empty waiter table, TryLock/Unlock works again (pending lease timers are counted, not judged: C05 tolerates one armed renewal per finished tenure) on every Locker of a live provider. free-running (repeated by a second pass built without the race detector): 600 / 30 000 rounds of 3-10 real goroutines on 2-4 Lockers under the race detector: everybody finishes within 4 s (a missed release is only rescued by the 10 s lease), then the same residue probes. distinct = distinct (configuration, action trace) pairs executed + distinct free-running configurations")
 	run.Assume("liveness is decided in its bounded form: every controlled execution is finite and never reaches a state without a progress action while a worker is unfinished")
 	run.Assume("attempts already parked in the storage wait when Shutdown is called are not constrained by the statement and are not judged; frozen virtual time")
 
@@ -187,9 +187,15 @@ func TestCheck(t *testing.T) {
 		locksim.Replay(t, run, p, mine)
 		return
 	}
-	nsh := runtime.NumCPU()
-	shard.Run(run, "TestChild", "random", nsh, 45*time.Minute)
-	shard.Run(run, "TestChild", "dfs", nsh, 45*time.Minute)
+	// the second pass (VERIF_PASS=norace: built without the race detector, i.e. with different timing) repeats the
+	// free-running rounds only
+	norace := os.Getenv("VERIF_PASS") == "norace"
+	if !norace {
+		nsh := runtime.NumCPU()
+		childLimit := time.Duration(run.Pick(150, 2700)) * time.Second
+		shard.Run(run, "TestChild", "random", nsh, childLimit)
+		shard.Run(run, "TestChild", "dfs", nsh, childLimit)
+	}
 
 	// free-running hand-off and residue under real scheduling
 	n := run.Pick(600, 30000)
@@ -248,7 +254,7 @@ func TestCheck(t *testing.T) {
 	}
 	// hand-off against a stale renewal in flight (real clock, short lease, gated storage)
 	var hwg sync.WaitGroup
-	for i := 0; i < run.Pick(4, 16); i++ {
+	for i := 0; i < run.Pick(4, 16) && !norace; i++ {
 		hwg.Add(1)
 		go func(i int) {
 			defer hwg.Done()
@@ -277,7 +283,7 @@ func TestCheck(t *testing.T) {
 		}(i)
 	}
 	// a stale renewal of the first tenure answered during the second tenure of the same Locker (logical steps)
-	for i := 0; i < run.Pick(4, 16); i++ {
+	for i := 0; i < run.Pick(4, 16) && !norace; i++ {
 		hwg.Add(1)
 		go func(i int) {
 			defer hwg.Done()
